@@ -804,6 +804,11 @@ func (x *ctx) contractCall(st *state, fr *frame, con *Contract, callee *ssa.Func
 		r := x.applyClosure(st, l3, p.cl.P3, renv)
 		st.assume(r.t.s)
 	}
+	for name, spec := range con.Cbs {
+		if strings.HasPrefix(name, "result:") {
+			ret.iter = &iterRef{con: con, spec: spec, args: args}
+		}
+	}
 	if con.Flags["fresh"] && ret.t.s != "" && ret.t.srt == sRef {
 		// freshly allocated result: differs from every reference visible in the caller
 		x.assumeFreshRef(st, ret.t)
